@@ -499,10 +499,22 @@ def c10(scen, rec, f):
         tmo_win = any(v == "timeout" and x.startswith("W") for x, v, _ in rec["trace"][c["t0"]:c["t1"]])
         if died or tmo_reg or tmo_win or r["broken"] or r["shutdown"] or b["broken"] or b["shutdown"]:
             continue
+        # departures the call did not ask for: a registered worker that had announced its exit before the call began, or
+        # more exits announced during the call than stop sentinels it posted (a sentinel left over from an earlier resize
+        # that counted a worker already in its exit handshake is consumed now: "timed out meanwhile", one call earlier)
+        u = f"U{c['user']}"
+        posted = sum(1 for x, v, l in rec["trace"][c["t0"]:c["t1"]] if x == u and v == "ok" and l.startswith("acquire(") and "cq.sem" in l)
+        ann = [e for e in rec["events"] if e[1] == "ANNOUNCE"]
+        if any(e[3] <= c["t0"] and int(e[0][1:]) in b["pids"] for e in ann) or \
+                sum(1 for e in ann if c["t0"] < e[3] <= c["t1"]) > posted:
+            continue
         if len(r["pids"]) != new or len(r["alive"]) != new:
             out.append(("C10", "wrong-size-at-return", f"resize {b['mw']}->{new}: {len(r['pids'])} registered, {len(r['alive'])} alive ({c})"))
         kept = len(set(r["pids"]) & set(b["pids"]))
-        if kept != min(len(b["pids"]), new):
+        # (the manager thread re-spawning a worker during the call - for one that timed out before it - changes what
+        #  "the previous workers" are while the call waits for the jobs: not judged)
+        respawn = any(x.startswith("M") and l == "pstart" for x, v, l in rec["trace"][c["t0"]:c["t1"]])
+        if kept != min(len(b["pids"]), new) and not respawn:
             out.append(("C10", "survivors-restarted", f"resize {b['mw']}->{new}: {kept} of the previous {len(b['pids'])} workers kept, expected {min(len(b['pids']), new)} ({c})"))
     return out
 
